@@ -139,6 +139,9 @@ func runC15(o *Out) {
 			o.Violate("generated-record-unreadable", "mkRecord", "")
 			return
 		}
+		if top == gts.Linear {
+			scenarioMultiGuest(o, text, stripInfo(parsed[0]), []string{"7", "gene", "CDS", "regulatory"})
+		}
 		in := parsed[0]
 		plain := stripInfo(in)
 		for _, ls := range locators {
@@ -447,6 +450,62 @@ func checkExtractPlan(o *Out, ls string, invert bool, in gts.Sequence, rr gts.Re
 		if string(outs[i].Bytes()) != string(want[i]) {
 			o.Violate("extract-subsequence", line, fmt.Sprintf("#%d got %q want %q", i, outs[i].Bytes(), want[i]))
 			return
+		}
+	}
+}
+
+// a guest FILE with several records (also a CONTIG-only GenBank record, which
+// has a length on its LOCUS line but no residues): gts insert writes one record
+// per guest, each the INPUT with only that guest at every located 5' position
+func scenarioMultiGuest(o *Out, text []byte, plain gts.Sequence, locators []string) {
+	sb := newSandbox()
+	defer sb.close()
+	guestFile := filepath.Join(sb.dir, "guests.fa")
+	guests := [][]byte{[]byte("NNNN"), []byte("RRRRRR"), []byte("Y")}
+	ioutil.WriteFile(guestFile, []byte(">g1\nNNNN\n>g2 second\nRRRRRR\n>g3\nY\n"), 0644)
+	contigFile := filepath.Join(sb.dir, "contig.gb")
+	contig := []byte("LOCUS       CONTIGONLY               500 bp    DNA     linear   SYN 01-JAN-2020\nDEFINITION  contig only.\nACCESSION   C00001\nVERSION     C00001.1\nKEYWORDS    .\nSOURCE      synthetic\n  ORGANISM  synthetic\n            other.\nFEATURES             Location/Qualifiers\n     source          1..500\n                     /organism=\"contig-guest\"\nCONTIG      join(X00001.1:1..500)\n//\n")
+	ioutil.WriteFile(contigFile, contig, 0644)
+	for _, ls := range locators {
+		rr, ok := regionsOf(ls, plain)
+		if !ok {
+			continue
+		}
+		for _, embed := range []bool{false, true} {
+			args := []string{"insert", ls, guestFile}
+			cargs := []string{"insert", ls, contigFile}
+			if embed {
+				args = append(args, "-e")
+				cargs = append(cargs, "-e")
+			}
+			r := sb.run(args, text, false, true)
+			line := "gts " + strings.Join(args[:2], " ") + " <three-record guest file>"
+			outs, okp := parseRecords(r.stdout)
+			if r.code != 0 || !okp || len(outs) != len(guests) {
+				o.Violate("multi-guest-command-failed", line, fmt.Sprintf("exit %d, %d records", r.code, len(outs)))
+			} else {
+				for gi, out := range outs {
+					checkInsertPlan(o, fmt.Sprintf("%s, guest %d", line, gi+1), plain, rr, guests[gi], "ok ("+seqSx(out)+")")
+				}
+			}
+			// a guest without residues: nothing is inserted, whatever its LOCUS line says
+			rc := sb.run(cargs, text, false, true)
+			if rc.code == 0 {
+				couts, okc := parseRecords(rc.stdout)
+				if !okc || len(couts) != 1 {
+					o.Violate("contig-guest-output", "gts "+strings.Join(cargs[:2], " ")+" <CONTIG-only guest>", fmt.Sprintf("%d records", len(couts)))
+				} else {
+					checkInsertPlan(o, "gts "+strings.Join(cargs[:2], " ")+" <CONTIG-only guest>", plain, rr, nil, "ok ("+seqSx(couts[0])+")")
+					for _, f := range couts[0].Features() {
+						if v := f.Props.Get("organism"); len(v) == 1 && v[0] == "contig-guest" {
+							continue // the guest's own feature: it had no residues to denote in the guest either
+						}
+						if !coordsIn(f.Loc, 0, len(plain.Bytes())) {
+							o.Violate("contig-guest-feature-out-of-range", "gts "+strings.Join(cargs[:2], " ")+" <CONTIG-only guest>", f.Key+" "+locSx(f.Loc))
+						}
+					}
+				}
+			}
 		}
 	}
 }
